@@ -53,27 +53,68 @@ class Run:
 		self.vt.now += self.hdur(k)
 
 	def go(self):
-		ev = vclock.VEvent(self.vt, gated = False, stop_after = self.nticks, latency = self.lat)
-		self.ev = ev
-		if not vclock.attach(sim.clck_gen, self.gen, self.vt, ev):
-			raise common.HarnessError("cannot identify the clock generator's stop event")
+		""" One start() ... stop() cycle of the real generator.  The harness event is put in place once and kept
+		    across restarts (as the generator keeps its own); the worker parks in wait() after nticks ticks and it
+		    is the real stop() that has to end it: set the event, join, clear the event. -> error text or None """
+		import time as _t
+		ev = getattr(self, "ev", None)
+		if ev is None:
+			ev = vclock.VEvent(self.vt, gated = False, stop_after = self.nticks, latency = self.lat)
+			ev.park_at_end = True
+			self.ev = ev
+			if not vclock.attach(sim.clck_gen, self.gen, self.vt, ev):
+				raise common.HarnessError("cannot identify the clock generator's stop event")
+		else:
+			ev.stop_after = ev.waits + self.nticks
+			ev.latency = self.lat_shifted(ev.waits)
 		self.t_start = self.vt.now
+		before = {id(v) for v in vars(self.gen).values() if isinstance(v, threading.Thread)}
 		self.gen.start()
 		th = next((v for v in vars(self.gen).values() if isinstance(v, threading.Thread)), None)
 		if th is None:
 			raise common.HarnessError("cannot find the clock generator's thread")
-		import time as _t
 		t0 = _t.time()
-		while th.is_alive() and _t.time() - t0 < 600:
-			th.join(0.05)
-			if ev.entered == 0 and _t.time() - t0 > 5:
-				break      # the generator never came to the harness event: not attached
-		alive = th.is_alive()
-		if alive:
+		with ev.cond:
+			while not ev.parked and th.is_alive() and _t.time() - t0 < 600:
+				ev.cond.wait(0.05)
+				if ev.entered == 0 and _t.time() - t0 > 5:
+					break      # the generator never came to the harness event: not attached
+		if not ev.parked:
+			if not th.is_alive():
+				# the worker left on its own: the event was still set from the previous stop(), or it crashed
+				self.gen.stop()
+				return "the clock thread ended by itself after %d of %d ticks%s" % (len(self.trace), self.nticks,
+					(": " + sim.THREAD_ERRORS[-1]) if sim.THREAD_ERRORS else " (stop event still set from the previous stop()?)")
 			ev.set()
 			th.join(5)
-		self.gen.stop()
-		return not alive
+			self.gen.stop()
+			return "hung"
+		# now the real stop()
+		stopper = threading.Thread(target = self.gen.stop, daemon = True)
+		stopper.start()
+		stopper.join(30)
+		if stopper.is_alive():
+			signalled = ev.flag
+			ev.set()
+			stopper.join(10)
+			return "stop() does not return: the worker is parked in wait() and the stop event was %s" % (
+				"set, but the thread was not joined" if signalled else "never set")
+		if th.is_alive():
+			# stop() returned although the worker still exists
+			th.join(2)
+			if th.is_alive():
+				ev.set()
+				th.join(5)
+				ev.clear()
+				return "stop() returned while the clock thread was still alive (it is not joined / was not told to stop)"
+		if ev.flag:
+			ev.clear()
+			return "the stop event is still set after stop(): the next start() would end at once"
+		return None
+
+	def lat_shifted(self, base):
+		lat = self.lat
+		return lambda k: lat(k - base)
 
 
 def check_trace(ctx, run, T, desc, restarted = False):
@@ -119,12 +160,14 @@ def check_trace(ctx, run, T, desc, restarted = False):
 def calibrate(ctx, world):
 	""" Tick period of the running code, measured: t_1 - t_0 with idle handlers. """
 	run = Run(world, 0, 102, 0, 4, lambda k: 0, lambda k: 0)
-	ok = run.go()
+	err = run.go()
+	ok = err is None
 	if run.vt.calls == 0 or run.ev.waits == 0:
 		# the generator does not read the harness clock / wait on the harness event: nothing can be decided
 		raise common.HarnessError("virtual clock could not be attached to clck_gen (time source or breaker event changed)")
 	if not ok or len(run.trace) != 4:
-		ctx.violation("calibrate", {"trace": run.trace}, what = "clock generator did not deliver 4 ticks")
+		ctx.violation("calibrate", {"trace": run.trace}, what = "clock generator did not deliver 4 ticks and stop cleanly%s" % (
+			"" if err in (None, "hung") else ": " + err))
 		return None
 	T = run.trace[1][1] - run.trace[0][1]
 	first = run.trace[0][1] - run.t_start
@@ -203,8 +246,9 @@ def run(ctx):
 				rn.link_script[r.randrange(nticks)] = (r.choice(("add", "del")), r.randrange(nlinks))
 			desc["links_change_while_running"] = len(rn.link_script)
 			ctx.count("runs_with_changing_links")
-		if not rn.go():
-			ctx.violation("run", desc, what = "clock thread did not finish %d ticks (hung)" % nticks)
+		err = rn.go()
+		if err:
+			ctx.violation("run", desc, what = "clock thread did not finish %d ticks (hung)" % nticks if err == "hung" else err)
 			continue
 		what = check_trace(ctx, rn, T, desc)
 		ctx.count("runs")
@@ -225,8 +269,10 @@ def run(ctx):
 					rn.start_fn = r.choice((0, 5, 101, HYPER - 1, HYPER - 60, r.randrange(HYPER)))
 					rn.gen.clck_start = rn.start_fn
 					ctx.count("restarts_with_new_start_frame")
-				if not rn.go():
-					ctx.violation("restart", desc, what = "clock thread hung after stop()/start() number %d" % (cycle + 1))
+				err = rn.go()
+				if err:
+					ctx.violation("restart", desc, what = ("clock thread hung after stop()/start() number %d" % (cycle + 1)) if err == "hung"
+						else "stop()/start() number %d: %s" % (cycle + 1, err))
 					break
 				what = check_trace(ctx, rn, T, desc, restarted = True)
 				ctx.count("restarts")
